@@ -115,6 +115,32 @@ impl<'de, K: Deserialize<'de> + Ord + Clone + Default, V: Deserialize<'de> + Clo
     }
 }
 
+/// a map of KNOWN length written entry by entry through `serialize_key` / `serialize_value` (what hand-written impls and some of serde's own
+/// enum representations do) instead of `serialize_entry`
+#[derive(Debug, PartialEq)]
+pub struct KvMap<K: Ord, V>(pub BTreeMap<K, V>);
+impl<K: Serialize + Ord, V: Serialize> Serialize for KvMap<K, V> {
+    fn serialize<S: serde::Serializer>(&self, s: S) -> Result<S::Ok, S::Error> {
+        use serde::ser::SerializeMap;
+        let mut m = s.serialize_map(Some(self.0.len()))?;
+        for (k, v) in &self.0 { m.serialize_key(k)?; m.serialize_value(v)?; }
+        m.end()
+    }
+}
+impl<'de, K: Deserialize<'de> + Ord, V: Deserialize<'de>> Deserialize<'de> for KvMap<K, V> {
+    fn deserialize<D: serde::Deserializer<'de>>(d: D) -> Result<Self, D::Error> { BTreeMap::<K, V>::deserialize(d).map(KvMap) }
+}
+
+/// borrowing field types behind serde's Content buffer (untagged enum, flattened struct): a definite-length string reaches them borrowed
+#[derive(Deserialize, Debug)] #[serde(untagged)]
+pub enum UBorrow<'a> { #[serde(borrow)] S(&'a str), #[serde(borrow)] B(&'a [u8]), N(u64) }
+#[derive(Deserialize, Debug)]
+pub struct FlatInnerB<'a> { #[serde(borrow)] pub name: &'a str }
+#[derive(Deserialize, Debug)]
+pub struct FlatBorrow<'a> { pub id: u8, #[serde(flatten, borrow)] pub inner: FlatInnerB<'a> }
+#[derive(Deserialize, Debug)] #[serde(tag = "t")]
+pub enum ITagBorrow<'a> { V { #[serde(borrow)] s: &'a str }, W { n: u8 } }
+
 /// a `VecDeque` whose ring buffer has WRAPPED (built by pushes at both ends, the way `Deserialize` / `collect` never build one):
 /// the same sequence, whichever way the storage is laid out
 #[derive(Debug, PartialEq)]
